@@ -308,8 +308,23 @@ func (m *Machine) initExternalGlobal(g *ssa.Global, l Loc) {
 		m.storeRaw(l, IfaceV{t: discardType, v: &DiscardObj{}})
 	case "io.EOF":
 		m.storeRaw(l, IfaceV{t: errObjType, v: &ErrObj{msg: "EOF"}})
+	case "strconv.ErrRange":
+		m.storeRaw(l, IfaceV{t: errObjType, v: theErrRange})
+	case "strconv.ErrSyntax":
+		m.storeRaw(l, IfaceV{t: errObjType, v: theErrSyntax})
+	default:
+		// dependency initialisers are not executed: an error variable of a dependency that has
+		// no model here would silently read as nil - refuse instead
+		if g.Pkg.Pkg.Path() != libPkg && g.Pkg.Pkg.Path() != cmdPkg && strings.HasPrefix(g.Name(), "Err") {
+			if _, isIface := g.Type().(*types.Pointer).Elem().Underlying().(*types.Interface); isIface {
+				m.unsupported("unmodelled error variable " + full + " (dependency init is not executed)")
+			}
+		}
 	}
 }
+
+var theErrRange = &ErrObj{msg: "value out of range"}
+var theErrSyntax = &ErrObj{msg: "invalid syntax"}
 
 var theErrNotExist = &ErrObj{msg: "file does not exist", notExist: true}
 
